@@ -6,7 +6,7 @@ Generates coq/Gen/SqlConst.v from nostr_relay/storage/db.py:
   indexed_long_names     the tag names process_tags indexes besides single letters
   sql_interpolations_ok  interpolation lint of evaluate_filter / build_query: every value pasted into the SQL text is
                          a hex-validated id/author, an integer, or the result of sql_text_literal placed between quotes
-  sql_waits_scoped       db.py / base.py hold slots, locks and transactions only through (async) with and shield nothing
+  sql_waits_scoped       db.py / base.py hold slots, locks, connections and transactions only through (async) with and shield nothing
 """
 import ast
 import os
@@ -187,9 +187,17 @@ def generate(repo, outdir):
         probs = []
         for rel in ("nostr_relay/storage/db.py", "nostr_relay/storage/base.py"):
             tr_ = tree if rel.endswith("db.py") else ast.parse(open(os.path.join(repo, rel)).read())
+            scoped = set()
+            for n in ast.walk(tr_):
+                if isinstance(n, (ast.With, ast.AsyncWith)):
+                    for it in n.items:
+                        scoped.add(id(it.context_expr))
             for n in ast.walk(tr_):
                 if isinstance(n, ast.Call):
                     f = n.func
+                    if isinstance(f, ast.Attribute) and f.attr in ("begin", "connect") and ast.unparse(f.value).endswith("db") and id(n) not in scoped:
+                        # a transaction / connection opened outside `async with` is not committed-or-rolled-back as a whole on every way out
+                        probs.append("%s line %d: %s outside a with block" % (rel, n.lineno, ast.unparse(n)))
                     if isinstance(f, ast.Attribute) and f.attr in ("acquire", "release", "shield"):
                         probs.append("%s line %d: %s" % (rel, n.lineno, ast.unparse(f)))
                     elif isinstance(f, ast.Name) and f.id == "shield":
